@@ -51,6 +51,27 @@ pub fn cmd(args: &[String]) -> i32 {
             writeln!(out, "{}", b).expect("write");
             continue;
         }
+        if let Some(Value::Array(toks)) = b.get("csstoks") {
+            // a CSS token sequence (MC_CssTok): once as user / agent sheet (total), once inside <style> against the
+            // same document without it (inert)
+            let text: String = toks.iter().filter_map(|t| t.as_str()).collect::<Vec<_>>().join("");
+            let id = b["id"].as_str().unwrap_or("mc").to_string();
+            let doc = "<p class=x id=i>ab <b>cd</b></p><ul><li>ef</li><li>gh</li></ul>";
+            let cfgw = |ops: Value| serde_json::json!({"deco": "rich", "ops": ops});
+            let total = serde_json::json!({"id": format!("{}:t", id), "dom": false, "meta": {"kind": "total", "src": "MC_CssTok"}, "runs": [
+                {"html": doc, "w": 20, "cfg": cfgw(serde_json::json!([["css", text]])), "route": "lines"},
+                {"html": doc, "w": 20, "cfg": cfgw(serde_json::json!([["agentcss", text]])), "route": "string"}]});
+            writeln!(out, "{}", total).expect("write");
+            if !text.contains("</") {
+                let with = format!("<html><head><style>{}</style></head><body>{}</body></html>", text, doc);
+                let without = format!("<html><head></head><body>{}</body></html>", doc);
+                let inert = serde_json::json!({"id": format!("{}:i", id), "dom": false, "meta": {"kind": "inert", "src": "MC_CssTok"}, "runs": [
+                    {"html": with, "w": 20, "cfg": cfgw(serde_json::json!([["doccss"]])), "route": "string"},
+                    {"html": without, "w": 20, "cfg": cfgw(serde_json::json!([["doccss"]])), "route": "string"}]});
+                writeln!(out, "{}", inert).expect("write");
+            }
+            continue;
+        }
         if b["meta"].get("full").and_then(|x| x.as_bool()).unwrap_or(false) {
             // a whole document (html > head > style, body); the style element's text is the author sheet
             let css = b["meta"]["css"].clone();
